@@ -411,6 +411,7 @@ class H2FrameObserver:
             self._hdr_block = b""
             self._hdr_end_stream = False
             self.frames: List[str] = []
+            self.window_updates: Dict[int, int] = {}
 
     def _s(self, sid: int) -> H2Stream:
         return self.streams.setdefault(sid, H2Stream())
@@ -470,3 +471,5 @@ class H2FrameObserver:
                 self._s(frame.stream_id).reset = int(frame.error_code)
             elif isinstance(frame, hf.GoAwayFrame):
                 self.goaway = int(frame.error_code)
+            elif isinstance(frame, hf.WindowUpdateFrame):
+                self.window_updates[frame.stream_id] = self.window_updates.get(frame.stream_id, 0) + int(frame.window_increment)
